@@ -274,11 +274,6 @@ theorem pvalue_range_partial (qq : List α) (table : List (List α)) (hqq : qq.P
 
 /-! ## 4. Anderson-Darling: rejection of data outside [0, 1] -/
 
-/-- what is assumed of `qsort` in `c_ad_test`: a permutation of its input, ascending when no NaN is present -/
-def ADSorts (sort : List (Option α) → List (Option α)) : Prop :=
-  (∀ data, (sort data).Perm data) ∧
-    ∀ xs : List α, ∃ s : List α, sort (xs.map some) = s.map some ∧ s.Perm xs ∧ s.Pairwise (· ≤ ·)
-
 end field
 
 /-! ## 5. the discrimination score (ℝ) -/
